@@ -33,6 +33,33 @@ class Infra(Exception):
     """infrastructure failure: exit 2, never a violation"""
 
 
+class Stalled(BaseException):
+    """a call into the code under test did not return within its wall-clock budget (BaseException: an `except Exception`
+    in the code under test must not swallow it)"""
+
+
+class time_limit:
+    """`with time_limit(seconds):` — raises Stalled inside the block when it runs longer (main thread, SIGALRM)"""
+
+    def __init__(self, seconds):
+        self.seconds = seconds
+
+    def __enter__(self):
+        import signal
+
+        def on_alarm(signum, frame):
+            raise Stalled("no result within %.1f s" % self.seconds)
+        self.old = signal.signal(signal.SIGALRM, on_alarm)
+        signal.setitimer(signal.ITIMER_REAL, self.seconds)
+        return self
+
+    def __exit__(self, *exc):
+        import signal
+        signal.setitimer(signal.ITIMER_REAL, 0)
+        signal.signal(signal.SIGALRM, self.old)
+        return False
+
+
 def bootstrap_repo(stubs=("sgio", "iscsi")):
     """Make `import pyscsi` resolve to the tree under test (VERIF_REPO, default /repo); the external
     bindings named in `stubs` are replaced by the harness' stand-ins, the others are made unimportable."""
